@@ -10,6 +10,8 @@ import (
 
 	"github.com/google/go-tdx-guest/abi"
 	pb "github.com/google/go-tdx-guest/proto/tdx"
+	"github.com/google/go-tdx-guest/validate"
+	"github.com/google/go-tdx-guest/verify"
 
 	"verifharness/gen"
 )
@@ -118,7 +120,19 @@ func checkParsed(raw []byte) Event {
 		parsed, err = abi.QuoteToProto(in)
 		return err
 	})
-	ev := Event{"ev": "Return", "result": out.Verdict(), "fieldsOk": false, "reserialOk": false, "prefixOk": false, "err": out.ErrText()}
+	crashed := []string{}
+	if out.Panic != "" || out.Timeout {
+		crashed = append(crashed, "abi.QuoteToProto")
+	}
+	for name, fn := range map[string]func() error{
+		"verify.RawTdxQuote":   func() error { return verify.RawTdxQuote(append([]byte{}, raw...), &verify.Options{}) },
+		"validate.RawTdxQuote": func() error { return validate.RawTdxQuote(append([]byte{}, raw...), &validate.Options{}) },
+	} {
+		if o := Guard(10*time.Second, fn); o.Panic != "" || o.Timeout {
+			crashed = append(crashed, name)
+		}
+	}
+	ev := Event{"ev": "Return", "result": out.Verdict(), "fieldsOk": false, "reserialOk": false, "prefixOk": false, "err": out.ErrText(), "crashed": crashed}
 	if out.Verdict() != "accept" {
 		if out.Verdict() == "reject" {
 			ev["result"] = "reject"
